@@ -1,4 +1,4 @@
-(** Forged handles join the core language: world-level probes with ANY raw (key, generation) pair of 32-bit
+(** Forged handles join the core language: world-level and archetype-level probes with ANY raw (key, generation) pair of 32-bit
     words - never issued, stale, naming another or no archetype, generation zero, slot beyond the capacity -
     (C03 as the specification oracle reads it). *)
 From Coq Require Import NArith Lia Bool.
@@ -9,7 +9,11 @@ From Gecs Require Import Prim ExtrBits ExtrVersion ExtrStorage ExtrQuery Storage
 Local Open Scope nat_scope.
 
 Definition l1_op (d : wdecl) (o : op) : bool :=
-  l0_op d o || match o with OProbe LWorld KEnt TAny (RRaw key ver) => (key <? 2^32)%N && (ver <? 2^32)%N | _ => false end.
+  l0_op d o || match o with
+                | OProbe LWorld KEnt TAny (RRaw key ver) => (key <? 2^32)%N && (ver <? 2^32)%N
+                | OProbe (LArch b) KEnt TAny (RRaw key ver) => (b <? length (wd_archs d)) && (key <? 2^32)%N && (ver <? 2^32)%N
+                | _ => false
+                end.
 
 (** A key that is not stored: every world-level path reports absence, or (debug assertions, slot index beyond
     the capacity) every path panics with the documented assertion. *)
@@ -63,6 +67,57 @@ Proof.
     + exists (concat (replicate 4 [2%N; pcode PDebug])). split_and!; [done|done|]. done.
 Qed.
 
+Lemma probe_arch_not_stored cfg s h : Inv s -> key32 h -> key_arch_id (fst h) = aid s -> h ∉ ents s ->
+  probe_storage_arch cfg KEnt s h = ROk rej_arch \/
+  probe_storage_arch cfg KEnt s h = ROk (concat (replicate 5 [2%N; pcode PDebug])).
+Proof.
+  intros HI Hk Hid Hn. pose proof (resolve_entity_cases cfg s HI h Hk) as Hc.
+  unfold probe_storage_arch, o_contains, o_resolve, o_to_direct, o_view, to_direct, resolve_for. cbn [resolve_key].
+  destruct (resolve_entity cfg s h) as [[[si dd]|]|p|] eqn:Hr; [| | |done].
+  - exfalso. apply Hn. apply elem_of_list_lookup. exists dd. by eapply resolve_entity_exact.
+  - left. done.
+  - right. destruct Hc as (-> & _). done.
+Qed.
+
+Lemma rel_step_probe_raw_arch cfg d qs st sst b key ver : NoDup (da_id <$> wd_archs d) -> Rel d st sst ->
+  b < length (wd_archs d) -> (key < 2^32)%N -> (ver < 2^32)%N ->
+  exists obs, step cfg d qs st (OProbe (LArch b) KEnt TAny (RRaw key ver)) = Some (st, obs) /\ obs <> [254%N] /\
+              spec_step cfg d qs sst (OProbe (LArch b) KEnt TAny (RRaw key ver)) obs = inr sst.
+Proof.
+  intros Hnd HR Hb Hkey Hver. destruct (rel_cur d st sst HR) as (w & sw & Hw & Hsw & Hcw & Hcsw & HWI & Harch).
+  set (h := (key, ver)). assert (Hk : key32 h) by done.
+  destruct (lookup_lt_is_Some_2 _ _ Hb) as [bd Hbd].
+  destruct (Harch b bd Hbd) as (s & x & Hs & Hx & HA & (HI & Haid & Hcols)).
+  cbn [step]. rewrite Hcw. cbn [get_href]. unfold make_key. cbn [snd].
+  cbn [spec_step]. rewrite Hcsw. cbn [fmap option_fmap option_map]. unfold expect_key. cbn [fst snd].
+  destruct (N.eqb_spec ver 0) as [->|Hv0].
+  { exists [5%N]. split_and!; [by unfold raw_ok, nonzero_new|done|]. unfold lNeqb. by rewrite bool_decide_eq_true_2. }
+  assert (raw_ok ver = true) as -> by (unfold raw_ok, nonzero_new; destruct (N.eqb_spec ver 0); done).
+  cbn [negb dispatch_arch fst snd]. rewrite Hbd. change arch_dispatch_checks_id with true. cbn [id_ok]. unfold conv_ok. cbn [fst].
+  destruct (N.eqb_spec (key_arch_id key) (da_id bd)) as [Hid|Hid].
+  2: { destruct (N.eqb_spec (da_id bd) (key_arch_id key)) as [E|_]; [by rewrite E in Hid|].
+       exists (replicate 5 0%N). split_and!; [done|done|]. done. }
+  assert ((da_id bd =? key_arch_id key)%N = true) as -> by (apply N.eqb_eq; congruence).
+  cbn [fmap option_fmap option_map]. rewrite Hbd, Hs, Hx. rewrite (a_sync _ _ _ HA).
+  set (prop := if 0 <? count_h (key, ver) (default [] (s_wissued sst !! s_cur sst)) then 1%N else 3%N).
+  unfold aid_of, ncols_of. rewrite Hbd. rewrite <- Haid. change (key, ver) with h.
+  destruct (decide (h ∈ ents s)) as [Hin|Hnin].
+  - apply elem_of_list_lookup in Hin as [dd Hdd].
+    assert (Hd : dd < len s) by (rewrite <- (i_lents s HI); by eapply lookup_lt_Some).
+    destruct (abs_at_some s dd HI Hd) as (e' & row & Ha & He' & Hlr). rewrite Hdd in He'. injection He' as <-.
+    rewrite (probe_arch_stored cfg s HI dd h row Hdd Ha).
+    pose proof (a_b1 _ _ _ HA h row ltac:(by exists dd)) as Hfind. rewrite Hfind.
+    destruct (oracle_accepts_stored_arch prop b s dd h row HI Hd) as (os & Hos & Hck & Hpc).
+    exists (acc_arch s dd h row). split_and!; [done|unfold acc_arch; cbn [app]; discriminate|].
+    rewrite <- Hcols, <- Hlr. rewrite Hos.
+    rewrite bool_decide_eq_true_2 by by eexists. cbn [fmap option_fmap option_map se_vals]. rewrite Hck, Hpc. done.
+  - pose proof (a_b2 _ _ _ HA h Hnin) as Hfind. rewrite Hfind.
+    rewrite bool_decide_eq_false_2 by (intros [? ?]; done). cbn [fmap option_fmap option_map].
+    destruct (probe_arch_not_stored cfg s h HI Hk ltac:(cbn; congruence) Hnin) as [Hp|Hp]; rewrite Hp.
+    + exists rej_arch. split_and!; [done|done|]. done.
+    + exists (concat (replicate 5 [2%N; pcode PDebug])). split_and!; [done|done|]. done.
+Qed.
+
 Lemma rel_step1 cfg d qs st sst o : wrapping cfg = false -> wf_decl d -> NoDup (da_id <$> wd_archs d) -> Rel d st sst ->
   l1_op d o = true ->
   exists st' obs sst', step cfg d qs st o = Some (st', obs) /\ obs <> [254%N] /\
@@ -71,10 +126,14 @@ Proof.
   intros Hwr Hwf Hnd HR Hl1. destruct (l0_op d o) eqn:Hl0; [by apply rel_step|].
   unfold l1_op in Hl1. rewrite Hl0 in Hl1. cbn [orb] in Hl1.
   destruct o as [| | | | | | |l k t r| | | | | | | | | | | | | | |]; try done.
-  destruct l; [|done]. destruct k; [|done]. destruct t; try done. destruct r as [|?|key ver]; try done.
-  apply andb_true_iff in Hl1 as [H1 H2]. apply N.ltb_lt in H1, H2.
-  destruct (rel_step_probe_raw cfg d qs st sst key ver Hnd HR H1 H2) as (obs & Hst & Hne & Hsp).
-  exists st, obs, sst. done.
+  destruct k; [|by destruct l]. destruct t; try (by destruct l). destruct r as [|?|key ver]; try (by destruct l).
+  destruct l as [|b].
+  - apply andb_true_iff in Hl1 as [H1 H2]. apply N.ltb_lt in H1, H2.
+    destruct (rel_step_probe_raw cfg d qs st sst key ver Hnd HR H1 H2) as (obs & Hst & Hne & Hsp).
+    exists st, obs, sst. done.
+  - apply andb_true_iff in Hl1 as [H0 H2]. apply andb_true_iff in H0 as [H0 H1]. apply N.ltb_lt in H1, H2. apply Nat.ltb_lt in H0.
+    destruct (rel_step_probe_raw_arch cfg d qs st sst b key ver Hnd HR H0 H1 H2) as (obs & Hst & Hne & Hsp).
+    exists st, obs, sst. done.
 Qed.
 
 Lemma rel_run1 cfg d qs ops : wrapping cfg = false -> wf_decl d -> NoDup (da_id <$> wd_archs d) ->
